@@ -189,6 +189,7 @@ type Step struct {
 	Node ast.Node
 	Lit  *ast.FuncLit // go/defer of a literal
 	Env  map[types.Object]Term
+	Heap int // heap epoch after the step (stores, calls): loads stamped >= Heap see its effect
 }
 
 type LoopRec struct {
@@ -413,7 +414,7 @@ func (x *SX) assign(lhs ast.Expr, val Term, st *sxState, node ast.Node) {
 		if o != nil && isLocalVar(o) {
 			if x.addrTaken[o] {
 				st.bump()
-				st.steps = append(st.steps, Step{Kind: "store", LHS: TVar{o}, RHS: val, Node: node})
+				st.steps = append(st.steps, Step{Kind: "store", LHS: TVar{o}, RHS: val, Node: node, Heap: st.heap})
 				st.env[o] = val // best knowledge; reads go through readVar
 				return
 			}
@@ -422,13 +423,13 @@ func (x *SX) assign(lhs ast.Expr, val Term, st *sxState, node ast.Node) {
 		}
 		if o != nil {
 			st.bump()
-			st.steps = append(st.steps, Step{Kind: "store", LHS: TVar{o}, RHS: val, Node: node})
+			st.steps = append(st.steps, Step{Kind: "store", LHS: TVar{o}, RHS: val, Node: node, Heap: st.heap})
 			return
 		}
 	}
 	dst := x.lvalue(lhs, st)
 	st.bump()
-	st.steps = append(st.steps, Step{Kind: "store", LHS: dst, RHS: val, Node: node})
+	st.steps = append(st.steps, Step{Kind: "store", LHS: dst, RHS: val, Node: node, Heap: st.heap})
 }
 
 // lvalue evaluates an assignable expression to a term WITHOUT epoch (an address-like key).
@@ -1637,7 +1638,7 @@ func (x *SX) call(call *ast.CallExpr, st *sxState, nres int) []evalOut {
 				case "delete", "copy", "clear", "close", "print", "println":
 					ev.st.bump()
 					tt := t
-					ev.st.steps = append(ev.st.steps, Step{Kind: "call", Blt: &tt, Node: call})
+					ev.st.steps = append(ev.st.steps, Step{Kind: "call", Blt: &tt, Node: call, Heap: ev.st.heap})
 				case "append":
 					// value-returning, but may write into spare capacity: recorded as a term; rules look at the term
 				}
@@ -1724,7 +1725,7 @@ func (x *SX) call(call *ast.CallExpr, st *sxState, nres int) []evalOut {
 					ao.st.bump()
 				}
 				tt := t
-				stp := Step{Kind: "call", Call: &tt, Node: call}
+				stp := Step{Kind: "call", Call: &tt, Node: call, Heap: ao.st.heap}
 				if hasFuncArg {
 					stp.Env = copyEnv(ao.st.env) // environment the literal captures, before the callee may run it
 				}
